@@ -279,6 +279,15 @@ def make_faults(ctx, rng, thorough):
     for o in (len(blob2) // 2, len(blob2) - 3):
         yield Fault(f"truncate-big-gz-R2@{o}of{len(blob2)}", {"in1.fq": tb.encode(), "in2.fq.gz": blob2[:o]}, "two", True,
                     {"in1.fq": tb, "in2.fq.gz": tb2}, detail="paired, R2 gzip truncated")
+    # (d0) interleaved FASTA whose last pair lacks its second read (cut at a record boundary): malformed for a paired run
+    inter_recs = [x for pair in zip(recs1, recs2) for x in pair]
+    for npairs in sorted({1, n // 2, n - 1}):
+        odd_fa = fastx.format_fasta(inter_recs[:2 * npairs + 1])
+        yield Fault(f"interleaved-fasta-odd-count@{2 * npairs + 1}", {"inter.fa": odd_fa.encode()}, "interleaved", True,
+                    {"inter.fa": fastx.format_fasta(inter_recs[:2 * npairs])}, fmt="fasta", detail="one record without partner at the end")
+    big_inter = [x for pair in zip(big[:400], [(nm.replace(" c", " d"), sq[::-1], ql) for nm, sq, ql in big[:400]]) for x in pair]
+    yield Fault("interleaved-fasta-odd-count-big@799", {"inter.fa": fastx.format_fasta(big_inter[:799]).encode()}, "interleaved", True,
+                {"inter.fa": fastx.format_fasta(big_inter[:798])}, fmt="fasta", detail="399 pairs and one record without partner")
     # (d) FASTA truncations: every prefix is well-formed unless it ends inside/just after nothing
     fa = fastx.format_fasta(recs1)
     offs_fa = range(0, len(fa), 2) if thorough else position_classes(fa, rng, per_class=1)
@@ -444,7 +453,7 @@ def run_shard(ctx):
             if state["timeouts"] >= 3:
                 ctx.mark_inconclusive("three runs exceeded the watchdog; shard stopped early")
                 return
-            if not thorough and fi % 2 != ctx.shard % 2 and not fault.label.startswith(("corrupt", "mate", "interleaved-odd", "truncate-big")):
+            if not thorough and fi % 2 != ctx.shard % 2 and not fault.label.startswith(("corrupt", "mate", "interleaved-odd", "interleaved-fasta", "truncate-big")):
                 continue
             size = sum(len(b) for b in fault.files.values())
             combos = [(1, 0, None)]
